@@ -184,6 +184,38 @@ def c13(chk):
         models.append("dialer own=0 step=%d maxb=%d maxout=%d P=%d ticks=%d | %s | %s"
                       % (step, maxb, maxout, P, ticks, ";".join(known_m), " ".join(avail)))
         metas.append(dict(k=k, ticks=ticks, cap=cap_binds, maxout=maxout, known=known_m))
+    # second family: the outstanding-connection cap against connections being established for OTHER reasons.
+    # k identical High peers that are always down (so counts do not depend on which of them the hash order picks),
+    # E_i explicit connects to a silent address issued 100 ms before tick i (pending at the tick, gone 300 ms later)
+    for i in range(10 if quick else 120):
+        rng = chk.rng
+        k = rng.randrange(2, 5)
+        M = rng.randrange(1, 4)
+        ticks = rng.choice([6, 8, 12])
+        step = rng.choice([500, 1500])
+        cmds = ["seed=%d delay=200" % rng.randrange(1 << 30),
+                "node 0 ctick=%d ctimeout=400 backoff=%d maxbackoff=%d maxout=%d idle=600000" % (P, step, step, M)]
+        known_m = []
+        for j in range(1, k + 1):
+            cmds += ["node %d key=%d idle=600000" % (j, 100 + j), "drop %d" % j]
+        for j in range(1, k + 1):
+            cmds.append("known 0 %d high addr=%d" % (j, j))
+            known_m.append("%d:high:%d" % (j, j))
+        cmds += ["sleep 10", "trace dial", "peers 0"]
+        ext = {}
+        for t in range(1, ticks):
+            e = rng.randrange(0, M + 2) if rng.random() < 0.6 else 0
+            cmds.append("sleep 900")
+            for x in range(e):
+                cmds.append("bg x%d_%d connect 0 9 port=9" % (t, x))
+            if e:
+                ext[t] = e
+            cmds += ["sleep 100", "trace dial", "peers 0"]
+        scen.append("simnet " + " ; ".join(cmds))
+        models.append("dialer own=0 step=%d maxb=%d maxout=%d P=%d ticks=%d ext=%s | %s | %s"
+                      % (step, step, M, P, ticks, ",".join("%d:%d" % kv for kv in sorted(ext.items())) or "-", ";".join(known_m),
+                         " ".join("0:%d:down" % j for j in range(1, k + 1))))
+        metas.append(dict(k=k, ticks=ticks, cap=True, maxout=M, known=known_m, ext=ext))
     outs, parsed = run_scenarios(chk, scen, "fabric:dialer")
     mouts = run_model(models)
     for sc, mc, o, res, mo, meta in zip(scen, models, outs, parsed, mouts, metas):
@@ -216,8 +248,8 @@ def c13(chk):
                 if p == 0 or aff.get(p) != "high" or naddr.get(p, 0) == 0:
                     chk.monitor_fail("background dial to an ineligible peer (self / not High / no address): peer %d at tick %d" % (p, i), dict(case=sc, impl=str(per_tick)[:600]))
                     ok_case = False
-            if len(ds) > meta["maxout"]:
-                chk.monitor_fail("more background dials started (%d) than max outstanding (%d) at tick %d" % (len(ds), meta["maxout"], i), dict(case=sc))
+            if len(ds) + meta.get("ext", {}).get(i, 0) > meta["maxout"] and len(ds) > 0:
+                chk.monitor_fail("%d background dial(s) started at tick %d while %d other connection(s) were being established: more than max outstanding (%d)" % (len(ds), i, meta.get("ext", {}).get(i, 0), meta["maxout"]), dict(case=sc))
                 ok_case = False
             if len(set(p for p, _ in ds)) != len(ds):
                 chk.monitor_fail("a peer was dialed twice in one check", dict(case=sc, impl=str(ds)))
@@ -301,6 +333,12 @@ def c13(chk):
             f = mt[i].split(":")
             mds = set(x for x in f[1].split(",") if x)
             ids = set("%d@%d" % (p, norm_port(p, port)) for p, port in ds)
+            if "ext" in meta:
+                # identical peers: the number of dials per tick is determined although their choice is not
+                if len(ids) != len(mds):
+                    chk.disagree(mc, "tick %d: %d dial(s) (all: %s)" % (i, len(ids), [len(x) for x in per_tick]), "tick %d: %d dial(s) (all: %s)" % (i, len(mds), mo), "simnet/dialer-outstanding")
+                    break
+                continue
             if meta["cap"]:
                 elig = set(x for x in f[2][1:].split(",") if x)
                 if not set(str(p) for p, _ in ds) <= elig or len(ds) != min(len(elig), meta["maxout"]):
@@ -727,8 +765,12 @@ def adversary_c14(chk):
         combos = chk.rng.sample(combos, 18)
     for (p, a, sni, cn) in combos:
         cmds = ["seed=%d" % chk.rng.randrange(1 << 30),
-                "node 1 key=11 name=n%d%s" % (p, " alt=n%d" % a if a else ""),
-                "adv 8 k=7 names=n%d" % cn, "advdial 8 1 sni=n%d" % sni, "sleep 300", "peers 1"]
+                "node 1 key=11 name=n%d%s" % (p, " alt=n%d" % a if a else "")]
+        if chk.rng.random() < 0.5:
+            # history: the same key was admitted before with a legitimate claim and certificate; admission of the
+            # dial under test must not depend on it
+            cmds += ["adv 7 k=7 names=n%d" % p, "advdial 7 1 sni=n%d" % p, "sleep 300", "advop 7 1 close", "sleep 300"]
+        cmds += ["adv 8 k=7 names=n%d" % cn, "advdial 8 1 sni=n%d" % sni, "sleep 300", "peers 1"]
         scen.append("simnet " + " ; ".join(cmds))
         metas.append((p, a, sni, cn))
     outs, parsed = run_scenarios(chk, scen, "fabric:adversary-names")
@@ -738,7 +780,12 @@ def adversary_c14(chk):
         if res is None:
             continue
         chk.nontriv(sc)
-        got = "accepted" if res[2] == "ok" else "rejected"
+        cl = [c.strip() for c in sc[len("simnet "):].split(" ; ")][1:]
+        got = "accepted" if res[cl.index("advdial 8 1 sni=n%d" % sni)] == "ok" else "rejected"
+        if "adv 7 k=7 names=n%d" % p in cl:
+            chk.count("primed-by-an-earlier-legitimate-dial")
+            if res[cl.index("advdial 7 1 sni=n%d" % p)] != "ok":
+                chk.monitor_fail("a dialer with an accepted name and certificate was rejected", dict(case=sc, impl=o[:600]))
         names = {p} | ({a} if a else set())
         if got == "accepted" and (cn not in names or sni not in names):
             chk.monitor_fail("listener (names %s) admitted a dialer claiming n%d with a certificate for n%d" % (sorted(names), sni, cn), dict(case=sc, impl=o[:600]))
@@ -1085,7 +1132,8 @@ def c11(chk):
         if near(e_in, h) or near(e_out, d1 + served + d2):
             continue
         cmds = ["seed=%d delay=%d" % (rng.randrange(1 << 30), delay_ms * 1000),
-                "node 0 idle=600000 keepalive=5000" + (" out_to=%d" % out_to if out_to else ""),
+                # in a third of the runs the caller was built with an outbound request layer of its own (a no-op one)
+                "node 0 idle=600000 keepalive=5000" + (" out_to=%d" % out_to if out_to else "") + (" outlayer=1" if rng.random() < 0.35 else ""),
                 "node 1 idle=600000 keepalive=5000" + (" in_to=%d" % in_to if in_to else ""),
                 "connect 0 1", "sleep 500",
                 "rpc 0 1 id=t size=20 sleep-ms=%d%s" % (h, " timeout-hdr=%s" % (hdr.encode().hex() or "-") if hdr is not None else ""),
